@@ -312,7 +312,7 @@ theorem C17_offset (fl : Flags) (w : Option Nat) (off : Int) (hm ms : Bool) :
     let hh := natDigits (offHours off).natAbs
     let width := max (w.getD 0 - (5 + (if hm then 1 else 0) + (if ms then 3 else 0)) + 2) 2
     fmtOffset true fl w off hm ms =
-      (if fl.pad = .space then padLeft width ' ' (sign :: hh) else sign :: padLeft width '0' hh) ++
+      (if fl.pad = .space then padLeft (width + 1) ' ' (sign :: hh) else sign :: padLeft width '0' hh) ++
       (if hm then [':'] else []) ++ pad2 (offMinutes off) ++ (if ms then ':' :: pad2 (offSeconds off) else []) := by
   intro sign hh width
   have e : (1 + 2 + (if hm then 1 else 0) + 2 + (if ms then 3 else 0) : Nat) = 5 + (if hm then 1 else 0) + (if ms then 3 else 0) := by
@@ -325,9 +325,45 @@ theorem C17_offset (fl : Flags) (w : Option Nat) (off : Int) (hm ms : Bool) :
 component, which is zero, instead of the sign of the offset). -/
 theorem C17_offset_old_counterexample :
     strftimeG false (mkDT 2022 1 3 7 56 37 0 (-1800)) ['%', '_', 'z'] = .ok ['+', '0', '3', '0'] ∧
-    strftime (mkDT 2022 1 3 7 56 37 0 (-1800)) ['%', '_', 'z'] = .ok ['-', '0', '3', '0'] ∧
+    strftime (mkDT 2022 1 3 7 56 37 0 (-1800)) ['%', '_', 'z'] = .ok [' ', '-', '0', '3', '0'] ∧
     strftime (mkDT 2022 1 3 7 56 37 0 (-1800)) ['%', 'z'] = .ok ['-', '0', '0', '3', '0'] :=
   ⟨rfl, rfl, rfl⟩
+
+theorem natAbs_tmod_lt60 (a : Int) : (a.tmod 60).natAbs < 100 := by
+  rcases Int.le_total 0 a with h | h
+  · rw [Int.tmod_eq_emod_of_nonneg h]; omega
+  · have e : a.tmod 60 = -((-a).tmod 60) := by rw [Int.neg_tmod]; omega
+    rw [e, Int.tmod_eq_emod_of_nonneg (by omega)]; omega
+theorem natAbs_tdiv_lt (a : Int) (h : a.natAbs < 360000) : (a.tdiv 3600).natAbs < 100 := by
+  rcases Int.le_total 0 a with h0 | h0
+  · rw [Int.tdiv_eq_ediv_of_nonneg h0]; omega
+  · have e : a.tdiv 3600 = -((-a).tdiv 3600) := by rw [Int.neg_tdiv]; omega
+    rw [e, Int.tdiv_eq_ediv_of_nonneg (by omega)]; omega
+
+/-- **The offset fills its width** under every padding style: the field is as wide as requested
+(5/6/9 columns by default for `%z` / `%:z` / `%::z`), for zero- and for blank-filling alike — the
+blank-filled form was one column short until the `fix:` commit (`%_10z` printed 9 columns). -/
+theorem C17_offset_width (fl : Flags) (w : Option Nat) (off : Int) (hm ms : Bool)
+    (hh : (natDigits (offHours off).natAbs).length ≤ 2) :
+    (fmtOffset true fl w off hm ms).length =
+      max (w.getD 0) (5 + (if hm then 1 else 0) + (if ms then 3 else 0)) := by
+  have hd : ∀ m : Fin 100, (natDigits m.val).length ≤ 2 := by decide +kernel
+  have hmin : (natDigits (offMinutes off).natAbs).length ≤ 2 := by
+    have : (offMinutes off).natAbs < 100 := by unfold offMinutes; exact natAbs_tmod_lt60 _
+    exact hd ⟨_, this⟩
+  have hsec : (natDigits (offSeconds off).natAbs).length ≤ 2 := by
+    have : (offSeconds off).natAbs < 100 := by unfold offSeconds; exact natAbs_tmod_lt60 _
+    exact hd ⟨_, this⟩
+  unfold fmtOffset pad2 padLeft rep
+  cases hm <;> cases ms <;> cases hp : fl.pad <;>
+    simp [List.length_append, List.length_replicate, hp] <;> omega
+
+/-- the hypothesis holds for every offset the `time` crate can represent (|hours| ≤ 25) -/
+theorem C17_offset_hours_two_digits (off : Int) (h : off.natAbs < 360000) :
+    (natDigits (offHours off).natAbs).length ≤ 2 := by
+  have hd : ∀ m : Fin 100, (natDigits m.val).length ≤ 2 := by decide +kernel
+  have : (offHours off).natAbs < 100 := by unfold offHours; exact natAbs_tdiv_lt _ h
+  exact hd ⟨_, this⟩
 
 /-- **Literals.** `%%`, `%n`, `%t` are the character itself (right-aligned in a given width). -/
 theorem C17_literal (d : DT) (pre post : Str) (hpre : '%' ∉ pre) :
